@@ -215,6 +215,46 @@ class Problem:
         self.cat, self.line, self.text = cat, line, text
 
 
+TRACE_EV = re.compile(r"([LSRWT])(-?\d+)?(?:/(\d+))?@(-?\d+):(-?\d+)(!?)$")
+
+
+def parse_trace(lines):
+    """the `iolog trace` line of a transcript -> list of (kind, request, store position before, answer, altered)"""
+    tr = next((l for l in reversed(lines) if l.startswith("ok trace=")), "")
+    out = []
+    for tok in tr[len("ok trace="):].split(","):
+        m = TRACE_EV.match(tok.strip())
+        if m:
+            out.append((m.group(1), int(m.group(2) or 0), int(m.group(4)), int(m.group(5)), m.group(6) == "!"))
+    return out
+
+
+def torn_regions(ev, dataoffset, bw):
+    """byte ranges [lo, hi) of TORN FRAMES: a write callback accepted a byte count that ends inside a frame.  Since the repair of
+    KF-C15-PARTIAL-FRAME the call reports whole frames only (the fragment is NOT part of what the caller was told has been written)
+    and the next write seeks back to the frame boundary, so the fragment is overwritten by the frame the caller supplies next.
+    Only these bytes are exempt from the `prefix` clause; sample-granular layouts only (bw > 0)."""
+    out = []
+    if bw <= 1:
+        return out
+    for (k, req, pos, ans, alt) in ev:
+        if k == "W" and 0 < ans < req:
+            end = pos + ans
+            if end > dataoffset and (end - dataoffset) % bw != 0:
+                out.append((end - (end - dataoffset) % bw, end))
+    return out
+
+
+def changed_ranges(d):
+    """ranges= field of `iolog verdict` -> list of (lo, hi) inclusive, or None when the list is incomplete / absent"""
+    r = d.get("ranges")
+    if r is None or r.endswith("+"):
+        return None
+    if r == "-":
+        return []
+    return [tuple(int(x) for x in t.split("-")) for t in r.split(",")]
+
+
 def judge(rep, wl, script, lines, ff):
     """evaluate the C15 predicate on one implementation transcript.  ff = dict of the fault-free run (sum, kinds).
     returns (problems, info) ; info: fired, calls, first, trace kinds"""
@@ -308,10 +348,18 @@ def judge(rep, wl, script, lines, ff):
             info["fired"] = int(d.get("fired", 0))
             info["first"] = int(d.get("first", 0))
             info["kinds"] = d.get("kinds", "")
+        elif t[0] == "iolog" and t[1] == "trace":
+            info["torn"] = torn_regions(parse_trace(lines), rep.dataoffset.get(wl, 0), getattr(rep, "blockwidth", 0)) if wl != "r" else []
         elif t[0] == "iolog" and t[1] == "verdict":
             if wl == "rw" and ff is not None and lines[ops.index(next(o for o in ops if o.startswith("open ")))].strip() != ff.get("open", "").strip():
                 continue      # the fault made the library describe the file differently: where the caller's writes land is not comparable
             if int(d.get("changed", 0)) > 0 or int(d.get("shrunk", 0)) > 0 and wl == "r":
+                # a torn frame (a fragment the write call did not report) may be completed by the next write; nothing else may change
+                cr = changed_ranges(d)
+                torn = info.get("torn", [])
+                if cr and int(d.get("shrunk", 0)) == 0 and all(any(lo <= a and b < hi for (lo, hi) in torn) for (a, b) in cr):
+                    info["torn_rewritten"] = sum(b - a + 1 for (a, b) in cr)
+                    continue
                 probs.append(Problem("prefix", k, "bytes the I/O layer had accepted when the fault began were changed later: %s" % l))
         elif t[0] == "ledger" and t[1] == "end":
             if int(d.get("blocks", 0)) != 0 or int(d.get("fds", "0").split(":")[0]) != 0 or int(d.get("tmp", "0").split(":")[0]) != 0:
